@@ -87,5 +87,34 @@ def GoVal.fieldsHaveType : List GoField → List GoVal → Bool
   | (.mk _ _ _ _ _ _ type) :: fs, v :: vs => GoVal.hasType type v && GoVal.fieldsHaveType fs vs
   | _, _ => false
 end
+mutual
+/-- `GoVal.hasTypeB b t v`: `GoVal.hasType t v` and every `uint` inside `v` is below `b` (`b = 2^64`: the range of Go's 64-bit `uint`;
+`b = 2^63`: the uints that `int64(uint)` leaves alone) -/
+def GoVal.hasTypeB (b : Int) : GoType → GoVal → Bool
+  | .ptr _, .nil | .slice _, .nil | .map _, .nil | .iface, .nil | .bytes, .nil => true
+  | .bool, .bool _ => true
+  | .int, .int _ => true
+  | .uint, .int i => decide (0 ≤ i) && decide (i < b)
+  | .float64, .float _ _ => true
+  | .float32, .float32 _ _ _ => true
+  | .string, .str _ => true
+  | .bytes, .bytes _ => true
+  | .ptr t, .ptr v => GoVal.hasTypeB b t v
+  | .iface, .iface t v => GoVal.hasTypeB b t v
+  | .slice t, .slice l => GoVal.allHaveTypeB b t l
+  | .map t, .map m => GoVal.entriesHaveTypeB b t m
+  | .struct fs, .struct vals => GoVal.fieldsHaveTypeB b fs vals
+  | _, _ => false
+def GoVal.allHaveTypeB (b : Int) : GoType → List GoVal → Bool
+  | _, [] => true
+  | t, v :: rest => GoVal.hasTypeB b t v && GoVal.allHaveTypeB b t rest
+def GoVal.entriesHaveTypeB (b : Int) : GoType → List (String × GoVal) → Bool
+  | _, [] => true
+  | t, (_, v) :: rest => GoVal.hasTypeB b t v && GoVal.entriesHaveTypeB b t rest
+def GoVal.fieldsHaveTypeB (b : Int) : List GoField → List GoVal → Bool
+  | [], [] => true
+  | (.mk _ _ _ _ _ _ type) :: fs, v :: vs => GoVal.hasTypeB b type v && GoVal.fieldsHaveTypeB b fs vs
+  | _, _ => false
+end
 
 end SMD
